@@ -784,7 +784,13 @@ impl C14 {
                 (Err(_), Err(_)) => {}
             }
             // keys taken through a newtype struct around Spanned<String>
-            for (route, res) in [("toml::from_str", toml::from_str::<RootKeys>(text).map_err(|e| e.to_string())), ("toml_edit::de::from_str", toml_edit::de::from_str::<RootKeys>(text).map_err(|e| e.to_string()))] {
+            for (route, res) in [
+                ("toml::from_str", toml::from_str::<RootKeys>(text).map_err(|e| e.to_string())),
+                ("toml_edit::de::from_str", toml_edit::de::from_str::<RootKeys>(text).map_err(|e| e.to_string())),
+                ("str::parse::<toml_edit::de::Deserializer>", text.parse::<toml_edit::de::Deserializer>().map_err(|e| e.to_string()).and_then(|d| RootKeys::deserialize(d).map_err(|e| e.to_string()))),
+                ("toml_edit::de::Deserializer::parse", toml_edit::de::Deserializer::parse(text).map_err(|e| e.to_string()).and_then(|d| RootKeys::deserialize(d).map_err(|e| e.to_string()))),
+                ("toml::de::Deserializer::new", RootKeys::deserialize(toml::de::Deserializer::new(text)).map_err(|e| e.to_string())),
+            ] {
                 match (res, &plain) {
                     (Ok(keys), _) => {
                         for k in keys.0 {
